@@ -17,7 +17,8 @@ if in_repo:
     args.remove("--in-repo")
 if "--also" in args:
     i = args.index("--also"); extra = args[i+1].split(","); del args[i:i+2]
-names = args or sorted(os.listdir(os.path.join(VERIF, "seeded")))
+SEEDED = os.environ.get("VERIF_SEEDED", os.path.join(VERIF, "seeded"))
+names = args or sorted(os.listdir(SEEDED))
 TREE = "/repo" if in_repo else "/tmp/wt-mut"
 env = dict(os.environ, VERIF_EVIDENCE_DIR=os.path.join(VERIF, "work", "evidence-mut"))
 if not in_repo:
@@ -34,7 +35,7 @@ def clean():
 assert clean(), TREE + " is not clean"
 results = {}
 for n in names:
-    d = os.path.join(VERIF, "seeded", n)
+    d = os.path.join(SEEDED, n)
     if not os.path.exists(os.path.join(d, "patch.diff")):
         continue
     meta = json.load(open(os.path.join(d, "meta.json")))
